@@ -534,7 +534,7 @@ pub fn run(run: &'static Run) {
          Pattern::from_bytes_without_negation(pattern).matches() (the literal-prefix / ends-with shortcuts; oracle applied to Pattern.text) and \
          compared with the transcription of git's dowild(). One case = one pattern (3124 triples). Sub-check classes: [[:c:]], [![:c:]], [^[:c:]] for the 12 POSIX \
          classes (+ one unknown name) x every single-byte text 0x01..0xff x 4 modes, each also bound to git. Sub-check brackets: `[` + {none,!,^} + every sequence of \
-         <=4 (quick) / <=5 (thorough) members over {a,m,z,-,],\\],[:digit:],[:alpha:],[:upper:],0,A} + `]` x every single-byte text 0x01..0xff and 10 longer texts x 4 modes \
+         <=4 (quick) / <=5 (thorough) members over {a,m,z,-,],\\],[:digit:],[:alpha:],[:upper:],0,A} (for <=4 members additionally `[:` = malformed class opener and `*`) + `]` x every single-byte text 0x01..0xff and 10 longer texts x 4 modes \
          (transcription bound to git for <=3 / <=4 members by git-bind-brackets). non-trivial = the pattern contains a glob \
          special and, in some mode, matches at least one text and rejects at least one",
     );
@@ -709,6 +709,8 @@ pub fn run(run: &'static Run) {
     // `[` + optional negation + every sequence of members + `]`; a `]` member that is not first closes the expression early and the
     // rest becomes a literal tail, `-` becomes a range operator or a literal depending on its neighbours (after a class it is literal).
     const MEMBERS: [&str; 11] = ["a", "m", "z", "-", "]", "\\]", "[:digit:]", "[:alpha:]", "[:upper:]", "0", "A"];
+    // + a malformed class opener (falls back to a literal `[`) and a wildcard (meaningful after an early `]`), used up to 4 members
+    const MEMBERS_EXT: [&str; 13] = ["a", "m", "z", "-", "]", "\\]", "[:digit:]", "[:alpha:]", "[:upper:]", "0", "A", "[:", "*"];
     const TEXTS2: [&[u8]; 10] = [b"a]", b"m]", b"z]", b"-]", b"]]", b"0]", b"a-", b"mm", b"am]", b"-z]"];
     let t2 = std::time::Instant::now();
     let max_members = run.pick(4, 5);
@@ -720,7 +722,10 @@ pub fn run(run: &'static Run) {
         vkit::Opts::default().chunk(4096),
         |emit| {
             for negation in 0..3u8 {
-                enumerate::seqs(&MEMBERS, 0, max_members, |m| emit(BracketCase { negation, members: m.iter().map(|s| s.to_string()).collect() }));
+                enumerate::seqs(&MEMBERS_EXT, 0, 4, |m| emit(BracketCase { negation, members: m.iter().map(|s| s.to_string()).collect() }));
+                if max_members > 4 {
+                    enumerate::seqs(&MEMBERS, 5, max_members, |m| emit(BracketCase { negation, members: m.iter().map(|s| s.to_string()).collect() }));
+                }
             }
         },
         |c: &BracketCase| -> Verdict {
@@ -811,7 +816,7 @@ pub fn run(run: &'static Run) {
         |emit| {
             let mut batch = Vec::new();
             for negation in ["", "!", "^"] {
-                enumerate::seqs(&MEMBERS, 0, bind_members, |m| {
+                enumerate::seqs(&MEMBERS_EXT, 0, bind_members, |m| {
                     let p = format!("[{negation}{}]", m.concat()).into_bytes();
                     for mode in 0..4u8 {
                         batch.push(BindSpec { pattern: B(p.clone()), glob: mode & 1 != 0, icase: mode & 2 != 0 });
